@@ -396,15 +396,15 @@ ADD_TEXT["C10"] += (" Round 7: five scenarios of clients that do something odd t
                     "message, stalled with a backlog): the daemon's CPU time over a quiet second must be about zero (F29, the bus spinning after a client shut down its reading "
                     "side, was found this way and repaired in /repo); subscribers that stop reading: max_outgoing_bytes holds for broadcast copies too (scenarios, generated "
                     "profile, oracle clause).")
-ADD_TEXT["C07"] += (" Round 7: sender='<well-known name>' and destination='<well-known name>' mean the name's present owner (sender_rule_needs_the_owner, "
+ADD_TEXT["C07"] = ADD_TEXT.get("C07", "") + (" Round 7: sender='<well-known name>' and destination='<well-known name>' mean the name's present owner (sender_rule_needs_the_owner, "
                     "waiter_does_not_match_sender_rule, destination_rule_needs_the_owner); scenarios with a second connection waiting in the name's queue and broadcasting.")
-ADD_TEXT["C12"] = (" Round 7: dbus_message_set_serial keeps a valid message valid (setSerial_keeps_valid, setSerial_roundtrip; the same statement for field edits is not proved: "
+ADD_TEXT["C12"] = ADD_TEXT.get("C12", "") + (" Round 7: dbus_message_set_serial keeps a valid message valid (setSerial_keeps_valid, setSerial_roundtrip; the same statement for field edits is not proved: "
                    "the correspondence covers it); the check sweeps allocation failures over its own edits (a failed edit leaves the bytes as they were).")
-ADD_TEXT["C02"] = (" Round 7: the big-endian image of every built message is also parsed and serialised again without anything reading it in between (reading converts a message "
+ADD_TEXT["C02"] = ADD_TEXT.get("C02", "") + (" Round 7: the big-endian image of every built message is also parsed and serialised again without anything reading it in between (reading converts a message "
                    "to native order and would hide a byte-order slip on the sending path).")
-ADD_TEXT["C05"] += (" A message is answered by the bus at most once: bus-made errors are counted per sender and serial over the whole trace.")
-ADD_TEXT["C15"] += (" Round 7: connections that keep attaching more descriptors than they announce (scenarios); the oracle bounds what the daemon holds open for its clients.")
-ADD_TEXT["C20"] += (" Round 7: path elements with digit runs (2, 10, a9, a10: orders that are not byte order); a harness that hangs is a reported result with the history up to it.")
+ADD_TEXT["C05"] = ADD_TEXT.get("C05", "") + (" A message is answered by the bus at most once: bus-made errors are counted per sender and serial over the whole trace.")
+ADD_TEXT["C15"] = ADD_TEXT.get("C15", "") + (" Round 7: connections that keep attaching more descriptors than they announce (scenarios); the oracle bounds what the daemon holds open for its clients.")
+ADD_TEXT["C20"] = ADD_TEXT.get("C20", "") + (" Round 7: path elements with digit runs (2, 10, a9, a10: orders that are not byte order); a harness that hangs is a reported result with the history up to it.")
 NEW_NOTE = {
     "C09": "Partial: 'exactly one NoReply' is 'at most one, exactly one unless the caller's own receive policy refuses the bus's error'; when a recipient's queue is full is an input of the "
            "environment (stall events), not computed from message sizes; timer precision is not modelled (the virtual clock only ever stands at least 100 s away from any deadline).",
